@@ -30,7 +30,12 @@ def run(ctx):
     # VLQ sweep (X): boundaries + random in quick, all 2^28 in thorough
     from props import vlqsweep
     fails += vlqsweep.run(ctx)
-    ctx.report(fails, lambda f: vlqsweep.confirm(ctx, f) if f.payload.get("family") == "vlq" else smf.confirm_factory(ctx)(f))
+    scf = smf.confirm_factory(ctx)
+
+    def confirm(f):
+        return vlqsweep.confirm(ctx, f) if f.payload.get("family") == "vlq" else scf(f)
+    confirm.in_context = scf.in_context       # (only the SMF records carry a history)
+    ctx.report(fails, confirm)
 
 
 def replay(ctx, payload):
